@@ -467,6 +467,14 @@ func delayPlans(budget time.Duration) []delayPlan {
 			return time.Duration(20+3*i) * ms, []time.Duration{time.Duration(120+3*i) * ms, time.Duration(333) * ms}
 		}},
 		{"sub-ms", func(i, n int) (time.Duration, []time.Duration) { return time.Duration(37+i) * time.Microsecond, nil }},
+		// a very fast hop, then one that takes most of (but less than) the per-probe timeout, alternating: how long the
+		// previous hop took says nothing about how long this one may take
+		{"fast-then-slow", func(i, n int) (time.Duration, []time.Duration) {
+			if i%2 == 0 {
+				return 8 * ms, nil
+			}
+			return budget - 120*ms, nil
+		}},
 		{"multi-delay", func(i, n int) (time.Duration, []time.Duration) { return time.Duration(260+251*i) * ms, nil }},
 		// parallel variants: the first ten hops answer inside the LAST poll interval before the listening deadline
 		// (delays are computed in the model from the run's own timeout and send delay); serial variants: ordinary
@@ -634,6 +642,18 @@ func checkC05() fw.Check {
 												dd = e.spec.Timeout - 200*time.Millisecond
 											}
 											m.destDelay = dd
+											if !v.Serial && reach && (dp.name == "equal" || dp.name == "sawtooth") {
+												// the destination's answer to the first probe that reached it is its slowest (a listener that
+												// wakes up, an ARP resolution behind it); its answers to the following probes are 260 ms
+												// faster. The destination hop's RTT is that of ITS probe, not the best of the samples
+												first := dist
+												m.destDelayFor = func(ttl int) time.Duration {
+													if ttl == first {
+														return dd + 260*time.Millisecond
+													}
+													return dd
+												}
+											}
 											if !v.Serial {
 												// (a) one send returns late: the sender sits 150 ms (more than a poll interval) inside the write
 												// after the packet left; the RTT reference is the hand-off, not the return
